@@ -155,7 +155,7 @@ def decode(b):
 
 
 # ----------------------------------------------------------------------------- stderr shapes
-PATH_SEGS = ["data", "fid", "g1", "q1", "q_2", "s1", "rep-1", "Member", "x9"]
+PATH_SEGS = ["data", "fid", "g1", "q1", "q_2", "s1", "rep-1", "Member", "x9", "root", "root", "item", "html", "body", "value", "roots"]
 
 
 def stderr_shape(rng, shape):
